@@ -194,6 +194,10 @@ func (k *KeepAlive) Close() {
 type Reuse struct{ ctx *fasthttp.RequestCtx }
 
 func (r *Reuse) Do(app *fiber.App, method, uri string, hdr ...string) *fasthttp.RequestCtx {
+	return r.DoBody(app, method, uri, nil, hdr...)
+}
+
+func (r *Reuse) DoBody(app *fiber.App, method, uri string, body []byte, hdr ...string) *fasthttp.RequestCtx {
 	if r.ctx == nil {
 		r.ctx = &fasthttp.RequestCtx{}
 	}
@@ -203,7 +207,11 @@ func (r *Reuse) Do(app *fiber.App, method, uri string, hdr ...string) *fasthttp.
 	for i := 0; i+1 < len(hdr); i += 2 {
 		req.Header.Add(hdr[i], hdr[i+1])
 	}
+	if body != nil {
+		req.SetBody(body)
+	}
 	r.ctx.Response.Reset() // keeps the body buffer, as the server does between two requests of a connection
+	r.ctx.ResetUserValues() // ... and it drops the user values (Locals) of the previous request
 	r.ctx.Init(&req, &net.TCPAddr{IP: net.IPv4(10, 0, 0, 9), Port: 1234}, nil)
 	app.Handler()(r.ctx)
 	return r.ctx
